@@ -63,6 +63,7 @@ def by_label(self, order_label="A"):
     return Cadence(frame_list=[frame for frame in self if frame.metadata["order_label"] == order_label])
 ''', ('calls',)),
     CD + 'tchans': ('def tchans(self):\n    if len(self.frames) == 0:\n        return None\n    return sum([frame.tchans for frame in self.frames])\n', ('return',)),
+    CD + 'slew_times': ('def slew_times(self):\n    return np.array([self.frames[i].t_start - self.frames[i - 1].t_stop for i in range(1, len(self.frames))])\n', ('return',)),
     CD + 'obs_range': ('def obs_range(self):\n    if len(self.frames) == 0:\n        return None\n    return self.frames[-1].t_stop - self.frames[0].t_start\n', ('return',)),
     CD + '_check': ('''
 def _check(self, v):
